@@ -14,14 +14,15 @@
    queries: the "remaining" counter against the queries that point at it, a query completing
    inside the call that submits it (cache hit, send failure) while the second one is still to be
    submitted, next_lookup / end_hquery, "*qid = id" through &hquery->qid_a.
-   Completeness when ares_cancel returns (complete_at_cancel) is refuted for the code as it is
-   (C01_complete_at_cancel_refuted) and checked by the monitor on generated histories; sufficiency of the fuel is not proved (the theorems speak about every fuel; the
-   correspondence run reports fuel exhaustion as a difference). *)
+   Completeness when ares_cancel returns is proved for the code with fixes/C01-cancel-complete.patch
+   (C01_complete_at_cancel) and refuted for the code before it (C01_pinned_cancel_incomplete_refuted).
+   The theorems speak about every fuel; C01_fuel_sufficient gives the fuel (a linear function of
+   the size of the history, the one the correspondence driver supplies) that is never exhausted. *)
 From Coq Require Import List ZArith.
 Import ListNotations.
 From CAres.Base Require Import Outcome.
 From CAres.Core Require Import LifecycleMonitor LifecycleMonitor_proofs Lifecycle Lifecycle_inv Lifecycle_proofs
-  Lifecycle_tokens Lifecycle_tokens_proofs Lifecycle_refuted.
+  Lifecycle_tokens Lifecycle_tokens_proofs Lifecycle_cancel_top Lifecycle_fuel_proofs Lifecycle_fuel_top Lifecycle_refuted.
 
 (* The executable oracle run on the implementation's trace decides exactly the declarative
    property (at most once, none after destroy, complete at destroy/end, complete at cancel). *)
@@ -65,19 +66,56 @@ Theorem C01_exactly_once_on_quiescence :
 Proof. exact run_from_quiescent. Qed.
 Print Assumptions C01_exactly_once_on_quiescence.
 
+(* when a top-level ares_cancel has returned, every request made before it was called has had its
+   callback (exactly one, by C01_at_most_once), whatever the callbacks did in between: new
+   requests, nested ares_cancel, ares_set_servers*, connections closing under the queries that
+   ares_cancel still holds *)
+Theorem C01_complete_at_cancel :
+  forall cf fuel h final tr, cf_fix cf = all_fixed ->
+  NoDup (hist_toks h) -> run cf fuel h final = Ok tr -> complete_at_cancel tr.
+Proof. exact run_complete_at_cancel. Qed.
+Print Assumptions C01_complete_at_cancel.
+
+(* so every trace of the model is accepted by the oracle that judges the implementation's traces *)
+Theorem C01_model_traces_pass_the_monitor :
+  forall cf fuel h final tr, cf_fix cf = all_fixed ->
+  NoDup (hist_toks h) -> run cf fuel h final = Ok tr -> trace_ok tr.
+Proof. exact run_trace_ok_full. Qed.
+Print Assumptions C01_model_traces_pass_the_monitor.
+
+(* the fuel is the depth of nested calls plus the iteration bound of the loops; with
+   fuel_bound h final = 20 * (sum over the inputs of 4 * tape events + size of the call) + 10
+   (size of a call: 20 + 8 per search candidate / lookup, 64 per getaddrinfo lookup or name) the
+   model never stops for lack of fuel: every outcome is a trace, a desynchronised tape, or - for
+   the pinned variants only - undefined behaviour *)
+Theorem C01_fuel_sufficient :
+  forall cf fuel h final, cf_fix cf = all_fixed ->
+  fuel_bound h final <= fuel -> run cf fuel h final <> Err OutOfFuel.
+Proof. exact run_fuel_sufficient. Qed.
+Print Assumptions C01_fuel_sufficient.
+
 (* the hypotheses are inhabited by non-trivial histories (reentrant cancel with a failing
    follow-up send on the connection under read; a getaddrinfo whose first query is released by a
-   callback while it is being sent), on which the model runs to completion *)
+   callback while it is being sent; a top-level cancel during which a callback's request closes
+   the connection under a query that is still waiting to be cancelled), on which the model runs
+   to completion *)
 Example C01_hypotheses_inhabited :
   NoDup (hist_toks h_sibling_cancels)
   /\ run (mkcfg all_fixed 1) 60 h_sibling_cancels []
      = Ok [EvReq 1; EvReq 2; EvCb 1 11%Z; EvCb 2 24%Z; EvDestroyBegin; EvDestroyEnd; EvEnd]
   /\ NoDup (hist_toks h_qid_after_free)
   /\ run (mkcfg all_fixed 4) 60 h_qid_after_free []
-     = Ok [EvReq 9; EvReq 1; EvReq 5; EvCb 1 0%Z; EvCb 9 24%Z; EvCb 5 24%Z; EvDestroyBegin; EvDestroyEnd; EvEnd].
+     = Ok [EvReq 9; EvReq 1; EvReq 5; EvCb 1 0%Z; EvCb 9 24%Z; EvCb 5 24%Z; EvDestroyBegin; EvDestroyEnd; EvEnd]
+  /\ NoDup (hist_toks h_cancel_complete)
+  /\ run (mkcfg all_fixed 1) 60 h_cancel_complete []
+     = Ok [EvReq 2; EvReq 1; EvCancelBegin; EvCb 2 24%Z; EvReq 3; EvCb 1 24%Z; EvCb 3 11%Z; EvCancelEnd;
+           EvDestroyBegin; EvDestroyEnd; EvEnd]
+  /\ run (mkcfg all_fixed 1) (fuel_bound h_cancel_complete []) h_cancel_complete []
+     = run (mkcfg all_fixed 1) 60 h_cancel_complete [].
 Proof.
   split; [vm_compute; repeat constructor; simpl; intuition discriminate|]. split; [vm_compute; reflexivity|].
-  split; [vm_compute; repeat constructor; simpl; intuition discriminate|]. vm_compute. reflexivity.
+  split; [vm_compute; repeat constructor; simpl; intuition discriminate|]. split; [vm_compute; reflexivity|].
+  split; [vm_compute; repeat constructor; simpl; intuition discriminate|]. split; vm_compute; reflexivity.
 Qed.
 
 (* before fixes/C01-cancel-complete.patch "when ares_cancel() returns every request made before it
